@@ -210,3 +210,12 @@ func (a *Adversary) Engage(victim *Peer, st iface.Store) {
 	}
 	k.F = saved
 }
+
+// lastCID returns some CID that is not the address of the entry it is attached to.
+func (a *Adversary) lastCID() cid.Cid {
+	e, err := a.Craft("own", a.Own, nil, "decoy", []byte("decoy"), nil, 1)
+	if err != nil {
+		return cid.Undef
+	}
+	return e.Hash
+}
